@@ -498,3 +498,14 @@ pub fn obl_bds(s: &mut Src, ctx: &mut Ctx, b4_lo: u8, b4_hi: u8) {
         b4 += 1;
     }
 }
+
+/// experiment
+pub fn obl_x_frame_only(s: &mut Src, ctx: &mut Ctx, len: usize, b0: u8) {
+    let mut b = [0u8; 14];
+    s.fill(&mut b[..len]);
+    if len > 0 {
+        b[0] = b0;
+    }
+    let r = Frame::from_bytes(&b[..len]);
+    vcheck!(ctx, r.is_ok() == (len >= 14), "[X] ok iff complete");
+}
